@@ -419,8 +419,11 @@ class AsCompleted(_CHarness):
         if not (isinstance(e, Exception) and 'task' in str(e)
                 and 'Timeout' not in type(e).__name__):
           # with faults a retriable error may surface first only if no worker
-          # stayed usable
-          if usable > 0:
+          # stayed usable; run()/call_and_wait() never retry, so there a
+          # time-out style error is a legitimate (loud) outcome under a fault
+          timeoutish = getattr(e, 'code', 0) == 4 or isinstance(e, TimeoutError)
+          if usable > 0 and not (p['driver'] != 'as_completed' and faults
+                                 and timeoutish):
             out.append((f'C06:tasks:wrong-error-for-failing-task:{fault}:{cfg}',
                         {'end': repr(e)}))
       elif p['driver'] != 'as_completed':
